@@ -112,28 +112,36 @@ class SrtContext:
       is_underlined = style.is_element_underlined(element)
       font_color = style.get_font_color(element)
 
-      if self._text_formatting:
-        if font_color is not None:
-          self._paragraphs[-1].append_text(style.FONT_COLOR_TAG_IN.format(font_color))
-        if is_bold:
-          self._paragraphs[-1].append_text(style.BOLD_TAG_IN)
-        if is_italic:
-          self._paragraphs[-1].append_text(style.ITALIC_TAG_IN)
-        if is_underlined:
-          self._paragraphs[-1].append_text(style.UNDERLINE_TAG_IN)
+      # the tags enclose the text nodes of the span itself: nested spans carry their own computed
+      # styles, which may set back to normal what an enclosing span has switched on
 
       for elem in list(element):
+
+        if not isinstance(elem, model.Text):
+          self.append_element(elem, begin, end)
+          continue
+
+        if self._text_formatting:
+          if font_color is not None:
+            self._paragraphs[-1].append_text(style.FONT_COLOR_TAG_IN.format(font_color))
+          if is_bold:
+            self._paragraphs[-1].append_text(style.BOLD_TAG_IN)
+          if is_italic:
+            self._paragraphs[-1].append_text(style.ITALIC_TAG_IN)
+          if is_underlined:
+            self._paragraphs[-1].append_text(style.UNDERLINE_TAG_IN)
+
         self.append_element(elem, begin, end)
 
-      if self._text_formatting:
-        if is_underlined:
-          self._paragraphs[-1].append_text(style.UNDERLINE_TAG_OUT)
-        if is_italic:
-          self._paragraphs[-1].append_text(style.ITALIC_TAG_OUT)
-        if is_bold:
-          self._paragraphs[-1].append_text(style.BOLD_TAG_OUT)
-        if font_color is not None:
-          self._paragraphs[-1].append_text(style.FONT_COLOR_TAG_OUT)
+        if self._text_formatting:
+          if is_underlined:
+            self._paragraphs[-1].append_text(style.UNDERLINE_TAG_OUT)
+          if is_italic:
+            self._paragraphs[-1].append_text(style.ITALIC_TAG_OUT)
+          if is_bold:
+            self._paragraphs[-1].append_text(style.BOLD_TAG_OUT)
+          if font_color is not None:
+            self._paragraphs[-1].append_text(style.FONT_COLOR_TAG_OUT)
 
     if isinstance(element, (model.Ruby, model.Rbc, model.Rb)):
       # keep the ruby base text; ruby annotations (rt, rtc, rp) cannot be expressed in SRT
